@@ -69,8 +69,10 @@ Theorem C17_lru_hit_sound :
 Proof. exact lru_try_get_ok. Qed.
 Print Assumptions C17_lru_hit_sound.
 
-(** VbkBlock::hash_: for every sequence of setters / getHash / setPrecalculatedHash (the latter supplying the true
-    hash of the content at that moment), every getHash answer is f of the current content *)
+(** VbkBlock::hash_: for every sequence of setters / getHash / setPrecalculatedHash / deserialisation INTO the same
+    object (with the all-zero default or a precalculated hash) / copy-move assignment - every supplied hash being
+    the true hash of the content it is attached to, every assigned-from block being consistent ([bops_ok]) -
+    every getHash answer is f of the current content *)
 Theorem C17_memo_transparent :
   forall (Hdr Ep Ent V : Type) (ep : Hdr -> Ep) (mk : Ep -> Ent) (hash : Hdr -> Ent -> V)
          (is_zero : V -> bool) (zero : V),
@@ -98,3 +100,15 @@ Theorem C17_setter_invalidates_memo :
          answers_ok Hdr Ep Ent V ep mk hash is_zero zero ops b').
 Proof. exact setter_invalidates_memo_lemma. Qed.
 Print Assumptions C17_setter_invalidates_memo.
+
+(** deserialising into an existing object overwrites the memo with the supplied hash (all-zero default = empty),
+    whatever the object memoised before; the result is consistent if the supplied hash is empty or f(header) *)
+Theorem C17_deser_resets_memo :
+  forall (Hdr Ep Ent V : Type) (ep : Hdr -> Ep) (mk : Ep -> Ent) (hash : Hdr -> Ent -> V)
+         (is_zero : V -> bool) (zero : V) (hf : Hdr -> V) (b : blk Hdr V) (h : Hdr) (v : V),
+    let b' := snd (blk_step Hdr V is_zero zero hf (BDeser Hdr V h v) b) in
+    content Hdr V b' = h /\
+    memo Hdr V b' = v /\
+    (is_zero v = true \/ v = f Hdr Ep Ent V ep mk hash h -> blk_ok Hdr Ep Ent V ep mk hash is_zero b').
+Proof. exact deser_resets_memo_lemma. Qed.
+Print Assumptions C17_deser_resets_memo.
